@@ -3,4 +3,5 @@ import Driver.Registry
 import Driver.Gated
 import Driver.Dispatch
 import Driver.FileSink
+import Driver.Sinks
 import Driver.Main
